@@ -415,6 +415,41 @@ func runC12(c *core.Case) *core.Result {
 			}
 		}
 	}
+	// a reader: subscribed to the shared key, it sends pull-only requests that carry the
+	// read-only bit while the waves push (a dashboard that only ever reads). Its responses are
+	// not applied and, like the ghost's, its calls are not part of the linearizability history:
+	// what matters is that the server serialises them with the writers of the key like any other
+	// request for it (the critical-section monitor sees every handler).
+	readerCl := w.b.NewClient("colA", "reader")
+	readerD := readerCl.Open(sharedKey, typ, bed.Subscribe)
+	readerCl.Register()
+	readerOK := false
+	if readerD != nil {
+		for try := 0; try < 3 && !readerOK; try++ {
+			if ex, _ := readerCl.Sync(); ex != nil && !ex.Out.TimedOut && readerD.DT.GetState() == model.StateOfDatatype_SUBSCRIBED {
+				readerOK = true
+			}
+		}
+	}
+	var readOnlyPulls int64
+	readerSend := func() {
+		req := readerCl.BuildRequest(readerD)
+		for _, p := range req.PushPullPacks {
+			p.Option |= uint32(model.PushPullBitReadOnly)
+		}
+		ex := readerCl.Send(req)
+		if ex.Out.Panic != "" {
+			violation.Store([2]string{"server-panic", "ProcessPushPull of a read-only pull panicked: " + ex.Out.Panic})
+		} else if ex.Out.TimedOut {
+			if ex.Out.Hang {
+				violation.Store([2]string{"request-hang", "a read-only pull never returned\n" + clipDump(ex.Out.Dump)})
+			} else {
+				violation.Store([2]string{"INCONCLUSIVE", "request watchdog (read-only pull)"})
+			}
+		}
+		atomic.AddInt64(&readOnlyPulls, 1)
+	}
+	defer func() { c.Count("read_only_pulls_during_waves", atomic.LoadInt64(&readOnlyPulls)) }()
 	var abandoned, cancelledAtLock int64
 	var atLock atomic.Value // func(): cancels the ghost's current request when its handler is about to take the lock
 	atLock.Store(func() {})
@@ -514,6 +549,18 @@ func runC12(c *core.Case) *core.Result {
 				defer side.Done()
 				ghostSend(d1)
 				ghostSend(d2)
+			}()
+		}
+		if readerOK {
+			nr := 2 + r.Intn(3)
+			gap := time.Duration(r.Intn(800)) * time.Microsecond
+			side.Add(1)
+			go func() {
+				defer side.Done()
+				for j := 0; j < nr; j++ {
+					readerSend()
+					time.Sleep(gap)
+				}
 			}()
 		}
 		go func() { // re-registration traffic
